@@ -20,9 +20,6 @@ ASSUMPTIONS = [
     "negative coordinates are not in the protocol",
 ]
 PARTIAL = [
-    "plot_round_trip is proved for cell size 1 only; cell sizes 2, 3 are evaluated by op plotrt (implementation rendering "
-    "parsed back by the Python parser, model rendering parsed back by the Lean parser) on all meshes of length <= 2 and "
-    "random meshes of length 3..7",
     "out-of-grid arguments of can_simul_shade (negative intermediate coordinates) are outside the model",
 ]
 TRUSTED = ["the encoding of ascii_plot strings into one protocol token (' '->'.', newline->'/', U+2592->'#', U+25CF->'o') "
